@@ -37,9 +37,13 @@ fn token_alphabet(full: bool) -> Vec<String> {
     }
     let extra = [
         "a", "b", "x_10", "nota", "andy", "tv", "v1", "true_", "f-", "1a", "10", "falſe", "ſ", "{a b}", "{a&b}",
-        "{}", "{", "@", "$", "é",
+        "{}", "{", "@", "$", "é", "{naïve_x}", "{TNF-α}", "{gènes et al}", "{ééééééé}",
     ];
     for e in extra.iter().take(if full { extra.len() } else { 12 }) {
+        v.push(e.to_string());
+    }
+    // brace-quoted names longer than the peek buffer with multi-byte characters at its start
+    for e in ["{naïve_x}", "{TNF-α}", "{ééééééé}"] {
         v.push(e.to_string());
     }
     v.sort();
@@ -64,7 +68,7 @@ fn sentence(rng: &mut Rng, depth: usize, names: &[&str]) -> String {
         match rng.below(10) {
             0 => rng.pick(&["true", "TRUE", "t", "1", "T"]).to_string(),
             1 => rng.pick(&["false", "False", "f", "0", "F"]).to_string(),
-            2 => format!("{{{}}}", rng.pick(&["a b", "x&y", "q", "not", "(z)"])),
+            2 => format!("{{{}}}", rng.pick(&["a b", "x&y", "q", "not", "(z)", "naïve_x", "TNF-α", "gènes", "ǆǆǆǆǆǆ|x"])),
             _ => rng.pick(names).to_string(),
         }
     };
@@ -235,6 +239,10 @@ pub fn gen_c14(cx: &mut Ctx) {
             cx.emit("C14", "roundtrip", &[Arg::F(Val::E(e.clone()))], true);
             cx.emit("C14", "print", &[Arg::F(Val::E(e))], true);
         }
+    }
+    for e in crate::gen::wide_exprs(&mut cx.rng, &names(&["a", "b", "x_10"]), true) {
+        cx.emit("C14", "roundtrip", &[Arg::F(Val::E(e.clone()))], true);
+        cx.emit("C14", "print", &[Arg::F(Val::E(e))], true);
     }
     let leaves = vec![lit("a"), lit("x_10"), lit("-"), cst(true), cst(false)];
     for e in trees_up_to(if cx.thorough { 5 } else { 4 }, &leaves, 3, 1) {
@@ -698,7 +706,11 @@ pub fn gen_c17(cx: &mut Ctx) {
         }
     }
     // other identifier names
-    for ns in [names(&["x_0", "x_1"]), names(&["B", "aa", "é"]), names(&["out", "result"])] {
+    for ns in [
+        names(&["x_0", "x_1"]), names(&["B", "aa", "é"]), names(&["out", "result"]),
+        names(&["F"]), names(&["T", "a"]), names(&["0", "1"]), names(&["False", "true", "z"]), names(&["a", "f"]),
+        names(&["p", "q", "r", "s", "t"]), names(&["v1", "v2", "v3", "v4", "v5", "v6", "v7"]),
+    ] {
         for _ in 0..20 {
             let bits = random_bits(&mut cx.rng, ns.len());
             let mut sorted = ns.clone();
@@ -716,11 +728,14 @@ pub fn gen_c18(cx: &mut Ctx) {
     let mut sets = table_name_sets(cx.thorough);
     sets.push(names(&["averyveryverylongname", "x_10", "é"]));
     sets.push(names(&["B", "aa"]));
+    sets.push(names(&["変数", "ｘ"]));
+    sets.push(names(&["e\u{301}", "遺伝子ａ"]));
+    sets.push(names(&["p", "q", "r", "s"]));
     for ns in sets {
         let mut sorted = ns.clone();
         sorted.sort();
         for bits in all_functions(sorted.len()) {
-            if sorted.len() >= 3 && cx.rng.below(if sorted.len() >= 4 { 256 } else { 4 }) != 0 {
+            if sorted.len() >= 3 && cx.rng.below(if sorted.len() >= 4 { 4096 } else { 4 }) != 0 {
                 continue;
             }
             let t = fn_as(1, &sorted, &bits);
@@ -776,6 +791,16 @@ pub fn gen_c20(cx: &mut Ctx) {
             calls.push((s("essential"), vec![Arg::F(Val::E(tree.clone()))]));
         }
         calls.push((s("implied"), vec![Arg::F(x.clone()), Arg::F(y.clone())]));
+        // error values are results too: several repeated header names, several missing inputs,
+        // several faults in one text
+        if round % 3 == 0 {
+            let hdr = *rng.pick(&["a,b,b,a,out", "c,a,b,c,a,b,r", "x,y,z,y,x,z,w,w,out", "q,q,p,p"]);
+            calls.push((s("csv.from"), vec![Arg::X(format!("{}\n{}\n", hdr, hdr.split(',').map(|_| "0").collect::<Vec<_>>().join(",")))]));
+            calls.push((s("csv.from"), vec![Arg::X(s(*rng.pick(&["a,r\n0,1\n0,0\n", "a,b,r\n1,x,0\n", "0,1\n0,0\n1\n", "a,a\n"])))]));
+            calls.push((s("parse"), vec![Arg::X(s(*rng.pick(&["a & ", "(a | b", "a b c", "{} | {}", "a ) ( b", "$ & #"])))]));
+            let e5 = random_tree(&mut rng, 3, &wide, false, 2);
+            calls.push((s("evalc"), vec![Arg::F(Val::E(e5)), Arg::V(BTreeMap::new())]));
+        }
         if kind == 1 {
             calls.push((s("conv.TE"), vec![Arg::F(x.clone())]));
             calls.push((s("csv.to"), vec![Arg::F(x.clone()), Arg::A(s("Word")), Arg::A(s("Number"))]));
@@ -857,6 +882,43 @@ fn observe(a: &Arg) -> String {
 
 /// Debug rendering of the result object itself (node order of BDDs included)
 fn debug_of(op: &str, args: &[Arg]) -> String {
+    // results that are not function objects: the full Debug / Display text of the real value, so that
+    // the payload of an error (a name, a list of missing inputs and its order) is observed too
+    let text = |i: usize| -> String {
+        match &args[i] {
+            Arg::X(t) | Arg::A(t) => t.clone(),
+            _ => String::new(),
+        }
+    };
+    match op {
+        "csv.from" => {
+            let r = std::panic::catch_unwind(|| {
+                let r = biodivine_boolean_functions::table::TruthTable::<String>::from_csv_string(&text(0));
+                match r {
+                    Ok(t) => format!("{:?}", t),
+                    Err(e) => format!("{:?}|{}", e, e),
+                }
+            });
+            return r.unwrap_or_else(|_| "panic".to_string());
+        }
+        "parse" => {
+            let r = std::panic::catch_unwind(|| format!("{:?}", biodivine_boolean_functions::expressions::Expression::<String>::from_str(&text(0))));
+            return r.unwrap_or_else(|_| "panic".to_string());
+        }
+        "evalc" => {
+            use biodivine_boolean_functions::traits::Evaluate;
+            if let (Arg::F(f), Arg::V(v)) = (&args[0], &args[1]) {
+                let r = std::panic::catch_unwind(std::panic::AssertUnwindSafe(|| match f {
+                    Val::E(x) => format!("{:?}", x.evaluate_checked(v)),
+                    Val::T(x) => format!("{:?}", x.evaluate_checked(v)),
+                    Val::B(x) => format!("{:?}", x.evaluate_checked(v)),
+                }));
+                return r.unwrap_or_else(|_| "panic".to_string());
+            }
+            return String::new();
+        }
+        _ => {}
+    }
     match apply(op, args) {
         Some(Val::E(e)) => format!("{:?}", e),
         Some(Val::T(t)) => format!("{:?}", t),
